@@ -39,7 +39,11 @@ where
 
 pub fn until_next_unindented(input: &str, at_least_until: usize, fallback_len: usize) -> &str {
     let mut prev_was_newline = false;
-    for (idx, ch) in input[at_least_until..].char_indices() {
+    for (idx, ch) in input
+        .get(at_least_until..)
+        .unwrap_or_default()
+        .char_indices()
+    {
         if prev_was_newline && ch.is_ascii_alphanumeric() {
             // Found "\n[A-Za-z0-9]" pattern, return up to the newline
             return &input[..(idx - 1 + at_least_until)];
@@ -48,7 +52,11 @@ pub fn until_next_unindented(input: &str, at_least_until: usize, fallback_len: u
     }
 
     // No match found, use fallback
-    input[..input.len().min(fallback_len)].trim()
+    let mut fallback_len = input.len().min(fallback_len);
+    while !input.is_char_boundary(fallback_len) {
+        fallback_len -= 1;
+    }
+    input[..fallback_len].trim()
 }
 
 pub fn hex_to_bools(c: char) -> [bool; 4] {
@@ -167,7 +175,7 @@ pub fn take_until_unbalanced<'a>(
             } else if tag::<&str, Input<'_>, Error<Input<'_>>>(closing_tag)(input).is_ok() {
                 bracket_counter -= 1;
                 index += closing_tag.len();
-            } else if index == i.len() - 1 {
+            } else if index + 1 >= i.len() {
                 break 'consume;
             } else {
                 let c = i.slice(index..).inner().chars().next().unwrap_or_default();
